@@ -4,6 +4,7 @@ from .terms import (C, ZERO, UNINIT, Dom, INF, Lin, lin_of, term_of_lin, is_cons
 from .state import Unsupported, split_off
 
 MAXW = 8
+from .facts import WORD as WORD_
 
 import os as _os
 BIG_ENDIAN = bool(_os.environ.get('LLTD_BIG_ENDIAN'))     # memory byte order of the modelled target
@@ -136,7 +137,23 @@ def add_region(o, key, n, src):
 
 def load_bytes(st, o, offterm, n):
     symkey, c = off_key(st, offterm)
-    return [load_byte(st, o, symkey, c + i) for i in range(n)]
+    bs = [load_byte(st, o, symkey, c + i) for i in range(n)]
+    if isinstance(o.ptr_fields, dict) and not symkey and n > WORD_:
+        # a whole-record copy (`seen = *node`) keeps what the pointer fields of a summarised object point to
+        for pf, tg in o.ptr_fields.items():
+            if not isinstance(pf, int) or pf < c or pf + WORD_ > c + n:
+                continue
+            if o.cells.get(((), pf)) is not None and not o.weak:
+                continue
+            seg = bs[pf - c:pf - c + WORD_]
+            t = reassemble(seg) if UNINIT not in seg else None
+            if t is not None and (t == ZERO or t[0] in ('ptr', 'pset', 'fn')):
+                continue
+            if o.cells.get(((), pf)) is None or o.weak:
+                pt = tg[0] if len(tg) == 1 else ('pset', ('sym', st.fresh('wp'), 0, 0), tuple(tg))
+                for i in range(WORD_):
+                    bs[pf - c + i] = mem_byte(pt, i, WORD_)
+    return bs
 
 
 def reassemble(bs):
